@@ -76,6 +76,19 @@ pub fn run_stream(rec: &mut Rec, rng: &mut Rng, limit: usize, chunks: &[Vec<u8>]
     let mut error = None;
     'outer: for ch in chunks {
         while rng.below(100) < noise_pct {
+            if rng.chance(1, 4) && !d.pending_write() {
+                // noise on the OUTPUT side between two reads: a response is queued and its write fails (the peer shut
+                // down its reading side but keeps sending) or is interrupted and then fails — the input side of the
+                // connection, with a request possibly half received, is none of the write path's business
+                let r = RespSpec { v11: true, code: 200, ops: vec![BOp::Body(b"noise".to_vec())] };
+                d.enqueue(rec, &r);
+                if rng.chance(1, 3) {
+                    d.write(rec, WAct::Intr);
+                }
+                d.write(rec, if rng.chance(1, 4) { WAct::Zero } else { WAct::Fail });
+                rec.count("noise:failed-write-between-reads");
+                continue;
+            }
             let e = *rng.pick(&[libc::EAGAIN, libc::EINTR]);
             d.rerr(rec, e);
         }
@@ -362,7 +375,8 @@ pub fn c02(rec: &mut Rec, rng: &mut Rng, thorough: bool) {
         if i % 3 == 1 && stream.len() <= 700 {
             rec.case(&format!("{}-bytewise", descr));
             let bytes: Vec<Vec<u8>> = stream.iter().map(|b| vec![*b]).collect();
-            let (_d2, s2) = run_stream(rec, rng, limit, &bytes, 0, 0);
+            // (every other bytewise pass with noise between the reads: failed reads, and failed writes of a queued response)
+            let (_d2, s2) = run_stream(rec, rng, limit, &bytes, if i % 2 == 0 { 3 } else { 0 }, 0);
             rec.op(&format!("spec feed {} {}", limit, hx(&stream)), &s2.line());
             if s2.line() != s.line() {
                 rec.oracle_fail("C02", &format!("fed in one piece: {} — fed one byte per read: {}", s.line(), s2.line()), &[format!("spec feed {} {}", limit, hx(&stream))]);
@@ -490,6 +504,27 @@ pub fn c03(rec: &mut Rec, rng: &mut Rng, thorough: bool) {
         }
         // (what is delivered is compared with the model; C03 itself only asks that no call panics — `recv` reports that)
         d.popall(rec);
+    }
+    // declared lengths around 2^31 and up to 2^32-1 under limits that admit them (the limit is a usize): the head, then a
+    // few body bytes in the same or in a later read — bookkeeping in 32-bit or signed arithmetic must not trip
+    for &l in &[2147483647usize, 2147483648, 4294967295, usize::MAX] {
+        for &n in &[2147483646u64, 2147483647, 2147483648, 2147483649, 3000000000, 4294967294, 4294967295] {
+            for same_read in [true, false] {
+                rec.case("huge-declared-length");
+                rec.nontrivial();
+                let mut d = ConnDriver::new(rec, l);
+                let mut head = format!("PUT /huge HTTP/1.1\r\nContent-Length: {}\r\n\r\n", n).into_bytes();
+                if same_read {
+                    head.extend_from_slice(b"0123456789");
+                    d.recv(rec, &head, 0);
+                } else {
+                    d.recv(rec, &head, 0);
+                    d.recv(rec, b"0123456789", 0);
+                }
+                d.recv(rec, &gen::body_bytes(rng, 1500), 0);
+                d.popall(rec);
+            }
+        }
     }
     // long op sequences on one connection, continuing after every kind of error
     let n_seq = if thorough { 6000 } else { 250 };
